@@ -59,11 +59,12 @@ class Infeasible(Exception):
 class Names:
     """Deterministic fresh names: re-executing a path prefix yields identical terms."""
 
-    def __init__(self):
+    def __init__(self, prefix=""):
         self.n = itertools.count()
+        self.prefix = prefix
 
     def fresh(self, base: str, sort):
-        return z3.Const(f"{base}!{next(self.n)}", sort)
+        return z3.Const(f"{self.prefix}{base}!{next(self.n)}", sort)
 
 
 _STR_IDS: dict[str, int] = {}
@@ -97,25 +98,53 @@ def cls_const(pycls) -> z3.ExprRef:
     return _CLS_CONSTS[pycls]
 
 
+class ClassTheory:
+    """Marker hypothesis: the theory of issubclass (a partial order whose restriction to the named
+    concrete classes is the running interpreter's truth table).  Instantiated per query over the class
+    terms that occur in it (see `class_theory_instances`) - linear in the table instead of cubic."""
+    name = "issubclass-theory"
+
+    def __repr__(self):
+        return "ClassTheory"
+
+
 def class_axioms(mentioned=None):
-    """Order axioms of issubclass (schemas) + the ground truth table of the concrete classes."""
-    from .ground import Q
-    ax = [
-        Q([Cls], lambda a: sub(a, a), name="sub-refl"),
-        Q([Cls, Cls, Cls], lambda a, b, c: z3.Implies(z3.And(sub(a, b), sub(b, c)), sub(a, c)), name="sub-trans"),
-    ]
-    items = list(_CLS_CONSTS.items())
-    if mentioned is not None:
-        items = [(k, v) for k, v in items if v.decl().name() in mentioned]
-    for (p, cp), (q, cq) in itertools.product(items, items):
+    return [ClassTheory()]
+
+
+def class_theory_instances(cls_terms):
+    """Ground instances of reflexivity / transitivity + the concrete truth table, for the given terms."""
+    consts = {v.get_id(): (p, v) for p, v in _CLS_CONSTS.items()}
+    K = [(p, v) for p, v in _CLS_CONSTS.items()]
+    S = [t for t in cls_terms if t.get_id() not in consts]
+    out = []
+    table = {}
+    for (p, cp), (q, cq) in itertools.product(K, K):
         try:
-            truth = issubclass(p, q)
+            tr = issubclass(p, q)
         except TypeError:
             continue
-        ax.append(sub(cp, cq) if truth else z3.Not(sub(cp, cq)))
-    for (p, cp), (q, cq) in itertools.combinations(items, 2):
-        ax.append(cp != cq)
-    return ax
+        table[(cp.get_id(), cq.get_id())] = tr
+        out.append(sub(cp, cq) if tr else z3.Not(sub(cp, cq)))
+    for (p, cp), (q, cq) in itertools.combinations(K, 2):
+        out.append(cp != cq)
+    up = [(cp, cq) for (p, cp), (q, cq) in itertools.product(K, K) if cp is not cq and table.get((cp.get_id(), cq.get_id()))]
+    for s_ in S:
+        out.append(sub(s_, s_))
+        for k1, k2 in up:
+            out.append(z3.Implies(sub(s_, k1), sub(s_, k2)))
+            out.append(z3.Implies(sub(k2, s_), sub(k1, s_)))
+        for (p, cp), (q, cq) in itertools.product(K, K):
+            if not table.get((cp.get_id(), cq.get_id()), True):
+                out.append(z3.Not(z3.And(sub(cp, s_), sub(s_, cq))))
+    for s1, s2 in itertools.permutations(S, 2):
+        for (p, k) in K:
+            out.append(z3.Implies(z3.And(sub(s1, s2), sub(s2, k)), sub(s1, k)))
+            out.append(z3.Implies(z3.And(sub(k, s1), sub(s1, s2)), sub(k, s2)))
+    if len(S) <= 8:
+        for a, b, c in itertools.permutations(S, 3):
+            out.append(z3.Implies(z3.And(sub(a, b), sub(b, c)), sub(a, c)))
+    return out
 
 
 # --------------------------------------------------------------------------- host values
@@ -363,14 +392,14 @@ def is_symbolic(x):
 class Path:
     """One execution path: replays a decision prefix, then explores."""
 
-    def __init__(self, prefix=(), axioms=(), timeout_ms=2000):
+    def __init__(self, prefix=(), axioms=(), timeout_ms=2000, name_prefix=""):
         self.prefix = list(prefix)
         self.taken: list[bool] = []
         self.alts: list[list[bool]] = []
         self.pc: list = []
         self.qs: list = []
         self.axioms = list(axioms)
-        self.names = Names()
+        self.names = Names(name_prefix)
         self.timeout_ms = timeout_ms
         self.notes: list[str] = []
         self.assumed: list = []     # side assumptions introduced by stubs (subset of pc, for reporting)
@@ -393,7 +422,7 @@ class Path:
             for c in cond:
                 self.assume(c, note)
             return
-        if isinstance(cond, Q):
+        if isinstance(cond, (Q, ClassTheory)):
             self.qs.append(cond)          # schemas are not given to the feasibility solver
             if note:
                 self.assumed.append(note)
@@ -414,11 +443,20 @@ class Path:
         self.feas_checks += 1
         self.solver.push()
         self.solver.add(extra)
-        if self.qs:
+        from .ground import instantiate, collect, Q
+        insts = []
+        qs = [q for q in self.qs if isinstance(q, Q)]
+        if qs:
             # ground instances of the schemas relevant to this query (keeps infeasible paths out)
-            from .ground import instantiate
-            for inst in instantiate(list(self.pc) + [extra], self.qs, rounds=2, cap=400):
-                self.solver.add(inst)
+            insts = instantiate(list(self.pc) + [extra], qs, rounds=2, cap=400)
+        cls_terms = {}
+        for t in collect(list(self.pc) + [extra] + insts):
+            if z3.is_app(t) and t.sort() == Cls:
+                cls_terms[t.get_id()] = t
+        if cls_terms:
+            insts = insts + class_theory_instances(list(cls_terms.values()))
+        for inst in insts:
+            self.solver.add(inst)
         r = self.solver.check()
         self.solver.pop()
         return r != z3.unsat   # unknown counts as feasible (sound: more paths, never fewer)
@@ -454,7 +492,7 @@ class Path:
         return choice
 
 
-def explore(run_one, axioms=(), max_paths=4000, timeout_ms=2000):
+def explore(run_one, axioms=(), max_paths=4000, timeout_ms=2000, name_prefix=""):
     """Enumerate all feasible paths of ``run_one(path) -> result``.
 
     Returns a list of (path, result).  ``run_one`` is re-executed from scratch per path.
@@ -463,7 +501,7 @@ def explore(run_one, axioms=(), max_paths=4000, timeout_ms=2000):
     out = []
     while work:
         prefix = work.pop()
-        p = Path(prefix, axioms=axioms, timeout_ms=timeout_ms)
+        p = Path(prefix, axioms=axioms, timeout_ms=timeout_ms, name_prefix=name_prefix)
         try:
             res = run_one(p)
         except Infeasible:
